@@ -107,6 +107,31 @@ def check_tls_flow(an, flow, pkts, sig, fails):
     return cnt
 
 
+def check_meta_direction(an, flow, sig, fails):
+    """-a: every exported payload of >= 7 bytes that is a piece of something only ONE endpoint sent (a raw record or a
+    plaintext) must be exported in that endpoint's direction, with that endpoint's addresses"""
+    conn, ends = flow.conn, flow.ends
+    c = scen.tcp_streams(an, ends)
+    if c is None:
+        return
+    mat = {"c": [], "s": []}
+    for r in conn.records:
+        mat[r.dir].append(r.raw)
+        if r.plain:
+            mat[r.dir].append(r.plain)
+    for ts, dname, payload, fr in c["data"]:
+        if len(payload) < 7:
+            continue
+        d = "c" if dname == "c2s" else "s"
+        o = "s" if d == "c" else "c"
+        own = any(payload in m for m in mat[d])
+        other = any(payload in m for m in mat[o])
+        if other and not own:
+            fails.append({"kind": "metadata_exported_in_the_wrong_direction", "sig": dict(sig, dir=o),
+                          "detail": f"{len(payload)} bytes that only the {'client' if o == 'c' else 'server'} sent are exported as sent by the other side: {fr!r}"})
+            return
+
+
 def check_quic_flow(an, flow, pkts, sig, fails):
     conn, ends = flow.conn, flow.ends
     ex = scen.udp_export(an, ends)
@@ -117,7 +142,7 @@ def check_quic_flow(an, flow, pkts, sig, fails):
         fails.append({"kind": "payload_mismatch", "sig": sig, "detail": ""})
         return 0
     for (d, pl, ts), (_, _, wts) in zip(got, want):
-        if ts != wts:
+        if abs(ts - wts) >= Fraction(1, 10 ** 6):        # preserved to microsecond resolution
             fails.append({"kind": "timestamp_not_of_the_input_datagram", "sig": dict(sig, dir=d),
                           "detail": f"output {float(ts):.6f} input {float(wts):.6f}"})
             return 0
@@ -148,7 +173,8 @@ def run_case(case):
         combos += [(v6, mss, "merged") for v6 in (False, True) for mss in (1460, 333, 77)]
         combos += [(False, 400, "duplex"), (True, 211, "duplex")]
         for v6, mss, order in combos:
-            scn = {"version": v, "suite": code, "etm": etm, "hs_secrets": hs,
+            # closing alerts end the connections (not in the full-duplex captures, where the interleaving would put data behind them)
+            scn = {"version": v, "suite": code, "etm": etm, "hs_secrets": hs, "close_alerts": None if order == "duplex" else ("c", "s"),
                    "history": [("c", 0), ("c", 130), ("s", 420), ("s", 17), ("c", 260), ("s", 1)]}
             if order in ("merged", "duplex"):
                 scn["history"] = [("c", 0), ("c", 130), ("c", 5), ("s", 420), ("s", 17), ("s", 300), ("s", 40), ("c", 260), ("c", 90), ("s", 1)]
@@ -191,6 +217,17 @@ def run_case(case):
                 fails.append({"kind": e.kind, "sig": sig, "detail": e.detail})
                 continue
             before = len(fails)
+            if order == "in_order":
+                # the same capture with metadata export: whatever is exported in addition (handshake, change-cipher-spec and
+                # alert records, verbatim) must travel in the direction of the endpoint that sent it
+                res_a = scen.run(pkts, f1.keylog() + f2.keylog() + f3.keylog() + f4.keylog(), ["-a"])
+                n += 1
+                try:
+                    an_a = scen.analyse(res_a)
+                    for fi, f in ((1, f1), (2, f2), (3, f3)):
+                        check_meta_direction(an_a, f, dict(sig, flow=fi, args="-a"), fails)
+                except scen.ExportError as e:
+                    fails.append({"kind": e.kind, "sig": dict(sig, args="-a"), "detail": e.detail})
             cnt = check_tls_flow(an, f1, pkts, sig, fails) + check_tls_flow(an, f2, pkts, dict(sig, flow=2), fails)
             check_tls_flow(an, f3, pkts, dict(sig, flow=3), fails)
             check_quic_flow(an, f4, pkts, dict(sig, flow=4), fails)
